@@ -1,5 +1,5 @@
 (* The oracle accepts every observation that is consistent with a sandboxed run of the model (under the
-   computed premises and the negated signature of F-C19-b): it can only fire where the implementation
+   computed premises and the negated signatures of F-C19-b and of the constructor/destructor finding): it can only fire where the implementation
    leaves what the theorems establish. *)
 From Icv Require Import Base.Tac Sandbox.SbModel Sandbox.SbProofs Sandbox.SbObs.
 From Coq Require Import NArith.
@@ -13,11 +13,11 @@ Definition sb_obs_of_model (F : sb_facts) (s s' : sb_st) (o : sb_obs) : Prop :=
 
 Lemma sb_oracle_accepts_model F fuel fr e s o :
   sb_premises F = true -> sbfr_sandboxed fr = true -> sbfr_top fr = true -> sb_frame_ok F fr = true ->
-  sb_no_hidden_global F s = true ->
+  sb_no_hidden_global F s = true -> sb_no_global_ctor F = true ->
   sb_obs_of_model F s (snd (sb_eval F fuel fr e s)) o ->
   sb_oracle o = None.
 Proof.
-  intros Hp Hs Ht Hok Hg (Hb & Hc & Hh & Hu). unfold sb_oracle. rewrite Hb.
+  intros Hp Hs Ht Hok Hg Hnc (Hb & Hc & Hh & Hu). unfold sb_oracle. rewrite Hb.
   destruct (sbo_changed o) eqn:Ec.
   { exfalso. apply Hc; [reflexivity|]. apply sb_no_write; assumption. }
   destruct (sbo_hidden o) eqn:Eh.
